@@ -15,7 +15,8 @@ M_PLAIN = {"bias": -1, "cw": 1, "tw": 1, "cng": [{"ng": [65345], "w": [5, -4]}, 
 M_TAGS = dict(M_PLAIN, tags=[
     {"token": [65345], "cats": [[[65], [66]], [[67]]], "cng": [{"ng": [65345], "tw": [{"rel": 0, "w": [3, -3]}]}], "tng": [], "bias": [1, 2]},
     {"token": [A], "cats": [[[68], [69]]], "cng": [{"ng": [A, HI], "tw": [{"rel": 1, "w": [9, -9]}]}], "tng": [], "bias": [0, 1]},
-    {"token": [HI], "cats": [[[70]], [[71], [72], [73]]], "cng": [], "tng": [{"ng": [3], "tw": [{"rel": 0, "w": [1, 5, 2]}]}], "bias": [2, 0, 1]}])
+    # tag strings containing the tokenized format's own delimiters (slash, space, backslash)
+    {"token": [HI], "cats": [[[70, 47, 70]], [[71, 32, 71], [72, 92], [73]]], "cng": [], "tng": [{"ng": [3], "tw": [{"rel": 0, "w": [1, 5, 2]}]}], "bias": [2, 0, 1]}])
 
 LINES = {"plain": "aああa", "multi": "あaあ", "half": "a1-b", "spaces": "a あ", "slash": "a/あ\\a", "empty": "", "nul": "a\0あ",
          "cr": "aあ\r", "one": "あ", "long": "ああaaあa1あ", "fullw": "あ｡あ～", "dash": "コ―ヒ－あ", "onea": "a", "oneslash": "/"}
@@ -65,6 +66,8 @@ def predict_tool(ctx, binp, cli, wd):
             # must-run: rejected first / middle / last line under every flag set
             for st in [(["empty", "plain", "multi"], True), (["plain", "nul", "half"], True), (["multi", "plain", "empty"], True)]:
                 runs.append((mname, fl, [], st))
+            for ws in (["D", "R"], ["H", "R"], ["R", "D", "H"], ["O", "D"]):
+                runs.append((mname, fl, ws, (["half", "plain", "long"], True)))
             extra = streams if not q else [st for k, st in enumerate(streams) if (k + len(runs)) % 2 == 0]
             for st in extra:
                 ws = rnd.sample(["D", "R", "H", "T", "K", "O", "G"], rnd.randint(0, 2))
@@ -134,6 +137,12 @@ def evaluate_tool(ctx, binp, cli, wd, models):
     for no_norm in (False, True):
         for metric in ("char", "word"):
             runs.append(("tags", refs_tags, no_norm, True, metric, []))
+    # tagged references evaluated WITHOUT tag prediction (and with a model without tags): the system has no tags
+    for no_norm in (False, True):
+        for metric in ("char", "word"):
+            runs.append(("plain", refs_tags + ["あ/F あ/G/H", "ああ/X"], no_norm, False, metric, []))
+            runs.append(("plain", refs_tags + ["あ/F あ/G/H", "ああ/X"], no_norm, True, metric, []))
+            runs.append(("tags", ["あ/F あ/G", "あa/Z あ"], no_norm, False, metric, []))
     # tokens joined by a filter after prediction: tags must be those of the JOINED token (library order: filters, then fill_tags)
     refs_join = ["ああ a/D/Z", "あ/F/G aa", "あ/F/H あ/F/G a/E", "ああ/F/G ａ/D"]
     for no_norm in (False, True):
